@@ -85,6 +85,36 @@ def run(ctx, rep):
                 klon = [const_f64(y) for y in subterms(side) if const_f64(y) is not None and abs(const_f64(y)) > 1]
     rep.ob('R16.4', 'kaaba-latitude', bool(klat) and all(abs(k - 21.4233) <= 1e-3 for k in klat), f'tan(latK) uses {klat} (21.4233 N)')
     rep.ob('R16.4', 'kaaba-longitude', bool(klon) and all(abs(k - 39.8233) <= 1e-3 for k in klon), f'delta-longitude uses {klon} (39.8233 E)')
+    # R16.6 a remainder / wrap applied to the longitude (difference) must have the period of the trigonometric functions
+    import math as _math
+    normp = {}
+    try:
+        from . import modular as _modular
+        normp = dict(_modular.normaliser_periods(ctx))
+    except Exception:
+        normp = {}
+    n_wraps = 0
+    for x in subterms(deg):
+        k = None
+        arg = None
+        if x and x[0] == 'bin' and x[1] == 'Rem' and const_f64(x[3]) is not None:
+            k, arg = abs(const_f64(x[3])), x[2]
+        elif x and x[0] == 'app' and (x[1] == 'rem_euclid' or x[1].endswith('::rem_euclid')) and len(x[2]) == 2 and const_f64(x[2][1]) is not None:
+            k, arg = abs(const_f64(x[2][1])), x[2][0]
+        elif x and x[0] == 'app' and x[1] in normp and x[2]:
+            k, arg = float(normp[x[1]]), x[2][0]
+        if k is None or not any(y == lon for y in subterms(arg)):
+            continue
+        n_wraps += 1
+        in_rad = any(y and y[0] == 'app' and y[1] == 'to_radians' for y in subterms(arg))
+        period = 2 * _math.pi if in_rad else 360.0
+        ratio = k / period
+        okp = abs(ratio - round(ratio)) < 1e-9 and round(ratio) >= 1
+        rep.ob('R16.6', 'longitude-wrap-period', okp,
+               f'wrap of period {k:g} on the longitude difference is compatible with the period {period:g} of sin/cos' if okp else
+               f'the longitude difference is reduced modulo {k:g}, but sin/cos need a multiple of {period:g}: differences beyond '
+               f'{k:g} (sites past the Kaaba\'s antimeridian) get a different bearing')
+    rep.extra['longitude_wraps'] = n_wraps
     # R16.5 mirror antisymmetry and sign convention
     if dl is not None:
         par = D.parity(deg, {dl})
